@@ -26,6 +26,7 @@ def run(chk):
              "(the local end marker is moved during the cyclic walk)")
     chk.rule("AXIS.mirror", "twin locals for the two axes (bb0minx / bb0miny, originx / originy, ...) read mirrored coordinates; includes the "
              "CLIPPER2_HI_PRECISION variant of GetSegmentIntersectPt")
+    chk.rule("CLAMP.endpoint", "GetSegmentIntersectPt executed on exact scenarios where the first segment ends or starts exactly on the second (t == 1, t == 0): ip is that end point in every instantiated variant")
     chk.rule("POLY.intersect", "GetSegmentIntersectPt (both precision variants): as a real-number formula the stored point lies on the lines through both "
              "segments, and 'parallel' is reported iff the cross product of the directions vanishes (identity of polynomial normal forms)")
     chk.rule("POLY.cross", "CrossProductSign / IsCollinear / ProductsAreEqual compare two products whose difference is identically the cross product "
@@ -56,6 +57,8 @@ def run(chk):
         e3.no_single_precision(db, chk, cfg)
         from ..engines import e14_poly as e14
         e14.rule_intersect(db, chk, cfg)
+        if "hi" not in cfg:      # the high-precision variant has no clamp (and its `if constexpr` is not interpreted)
+            e14.rule_clamp_endpoint(db, chk, cfg)
         e14.rule_cross(db, chk, cfg)
         e14.rule_measure(db, chk, cfg)
         e14.rule_multiply(db, chk, cfg)
